@@ -20,7 +20,8 @@ Reads(op) == CASE op \in {"create1", "create1json", "reuse1", "create3", "create
                [] op = "cache" -> {"fw"}
                [] op = "encrypt" -> {"fw"}
                [] op \in {"parse", "boot", "sign", "update"} -> {"env"}
-               [] op \in {"cachenv", "cachenv2"} -> {"multi"}
+               [] op \in {"cachenv", "cachenv2", "parsehA"} -> {"multi"}
+               [] op = "parsehB" -> {"multi2"}
                [] OTHER -> {}
 \* YAML and JSON renderings (and the re-used dictionary) denote the same description
 Canon(op) == IF op \in {"create1json", "reuse1"} THEN "create1" ELSE op
